@@ -82,14 +82,19 @@ def run_all(tier):
         elif part == "main":
             for c in res:
                 names = [l.split()[1] for l in c["lines"]]
+                tag = f"{c.get('launch', 'script')}:{c['method']}"
                 if not c["ok"] or c["rc"] != 0:
-                    viol.append((f"C18:R:main:script-failed:{c['method']}", str(c)[:300], c["method"]))
+                    viol.append((f"C18:R:main:script-failed:{tag}", str(c)[:500], tag))
                 elif c["method"] == "loky" and names != ["__main__"]:
-                    viol.append(("C18:R:main:reimported-under-loky",
-                                 f"the script body ran {len(names)} times: {names}", c["method"]))
-                elif c["method"] == "loky_init_main" and (names[0] != "__main__" or
-                                                          names.count("__mp_main__") != 2):
-                    viol.append(("C18:R:main:init-main-count",
-                                 f"expected one import per worker (2): {names}", c["method"]))
+                    viol.append((f"C18:R:main:reimported-under-loky:{c.get('launch', 'script')}",
+                                 f"main launched as {c.get('launch')}: its body ran {len(names)} "
+                                 f"times: {names}", tag))
+                elif c["method"] == "loky_init_main" and c.get("launch") != "code" and (
+                        names[0] != "__main__" or names.count("__mp_main__") != 2):
+                    viol.append((f"C18:R:main:init-main-count:{c.get('launch', 'script')}",
+                                 f"expected one import per worker (2): {names}", tag))
+                elif c["method"] == "loky_init_main" and c.get("launch") == "code" \
+                        and names != ["__main__"]:
+                    viol.append(("C18:R:main:code-rerun", f"-c code cannot be re-imported: {names}", tag))
             samples.append(dict(part="main", example=res))
     return dict(violations=viol, samples=samples, cases=cases, breakdown=breakdown)
